@@ -45,12 +45,46 @@ def Val.key (x : Val) : Key :=
 /-- python's `x == y` on the value universe; an equivalence relation (`veq_refl/symm/trans` in PyAggLemmas.lean) -/
 def veq (x y : Val) : Bool := x.key == y.key
 
-/-- `isinstance(value, base)` for a simple base type: the value's own class, and NUMBER (tag 5, a base type only: it has no
-values of its own) is a base class of INTEGER and REAL (not of `bool`) -/
+/-- `check_type(value, base)` for a base type that is not an aggregate, as a relation between the value's type and the base:
+* an ordinary simple type, BOOLEAN, LOGICAL or an ENUMERATION (tags 0–4, 6, 7): the value's own class (`isinstance`);
+* NUMBER (tag 5, a base type only: it has no values of its own): a base class of INTEGER and REAL (not of `bool`);
+* a SELECT (tag `100 + m`, `m` the bit mask of its member tags; a base type only): the value is an instance of one of the
+  member types (`SELECT.get_allowed_basic_types`). -/
 def conforms (t base : Ty) : Bool :=
   match base with
-  | .simple 5 => t == .simple 0 || t == .simple 2
+  | .simple n =>
+    if n = 5 then t == .simple 0 || t == .simple 2
+    else if n ≥ 100 then
+      (match t with
+       | .simple i => decide (i < 8) && (n - 100).testBit i
+       | .agg _ _ => false)
+    else t == base
   | b => t == b
+
+/-- the base types for which conformance is equality of types -/
+def plainBase : Ty → Bool
+  | .simple n => n != 5 && n < 100
+  | .agg _ _ => true
+
+/-- a type with the bounds of every aggregate level (`Ty` is a type *up to bounds*) -/
+inductive BTy
+  | simple (t : Nat)
+  | agg (k : Kind) (lo : Int) (hi : Option Int) (b : BTy)
+  deriving DecidableEq, Repr
+
+def eraseBounds : BTy → Ty
+  | .simple t => .simple t
+  | .agg k _ _ b => .agg k (eraseBounds b)
+
+def upperWithin : Option Int → Option Int → Bool
+  | _, none => true
+  | none, some _ => false
+  | some a, some b => decide (a ≤ b)
+
+def boundsConform (k : Kind) (lo : Int) (hi : Option Int) (lo' : Int) (hi' : Option Int) : Bool :=
+  match k with
+  | .array => decide (lo = lo') && decide (hi = hi')
+  | _ => decide (lo' ≤ lo) && upperWithin hi hi'
 
 /-- the element was built over the very base-type object of the declaration (see `Val`) -/
 def Val.sharesDeclaredBase (x : Val) : Bool := x.v % 2 == 0
